@@ -205,6 +205,8 @@ def run(run_):
         body += "Definition F := Eval vm_compute in c10_failures T %s.\nPrint F.\n" % clist(["c%d" % j for j in range(len(sh))])
         body += "Definition A := Eval vm_compute in c10_model_accepts T %s.\nPrint A.\n" % clist(["c%d" % j for j in range(len(sh))])
         if si == 0:
+            ncorp = len([i for i in sh if cases[i]["label"].startswith("corpus")])
+            body += "Definition ST := Eval vm_compute in c10_selftest T %s.\nPrint ST.\n" % clist(["c%d" % j for j in range(ncorp)])
             body += "Definition TOK := Eval vm_compute in tables_ok T %s %s %s.\nPrint TOK.\n" % (
                 clist([pg.cstr(x) for x in tables["actions"]]), clist([pg.cstr(x) for x in tables["types"]]),
                 clist([pg.cstr(x) for x in tables["cmodes"]]))
@@ -224,6 +226,15 @@ def run(run_):
         if "F" not in defs or isinstance(defs["F"], tuple) or "A" not in defs:
             raise CheckError("cannot read the verdicts from coqc output: %r" % (o[-500:],))
         model_accepts += defs["A"]
+        if "ST" in defs:
+            # the original model and the fixed model must not be indistinguishable on the corpus (else the comparison is vacuous)
+            run_.coverage["selftest_original_model_mismatches"] = len(defs["ST"])
+            fixed_fail = {j for (j, _) in defs["F"]}
+            orig_fail = {j for (j, _) in defs["ST"]}
+            if not (fixed_fail ^ orig_fail):
+                run_.violation("self-test: the pre-fix variant of the model is indistinguishable from the model on the corpus witnesses",
+                               {"correspondence": "c10_selftest (Run/ParserRun.v)", "original": sorted(orig_fail), "model": sorted(fixed_fail)},
+                               no_input=True)
         if "TOK" in defs and defs["TOK"] != []:
             names = {1: "SupportedActions", 2: "SupportedMappingTypes", 3: "SupportedCollisionModes", 4: "duplicate evdev names",
                      5: "evdev code beyond 16 bits", 6: "evdev name starting with x"}
